@@ -923,6 +923,27 @@ fn variants(pr: &Prob, rng: &mut Rng, wide_k: bool) -> Vec<Variant> {
         p2.cones = cones;
         v.push(mk("nn-split", p2, st0.clone()));
     }
+    // a nonnegative cone written as singleton second-order / PSD cones (SOC(1) = PSD(1) = R_+),
+    // preferring one that directly follows a zero cone (rows unchanged)
+    if !nn.is_empty() || pr.cones.iter().any(|c| matches!(c, NonnegativeConeT(1))) {
+        let all_nn: Vec<usize> = (0..pr.cones.len()).filter(|&i| matches!(pr.cones[i], NonnegativeConeT(k) if k >= 1)).collect();
+        let after_zero: Vec<usize> = all_nn.iter().cloned().filter(|&i| i > 0 && matches!(pr.cones[i - 1], ZeroConeT(k) if k >= 1)).collect();
+        let ci = if !after_zero.is_empty() { *rng.choose(&after_zero) } else { *rng.choose(&all_nn) };
+        let k = cone_dim(&pr.cones[ci]);
+        let mut cones = vec![];
+        for (i, c) in pr.cones.iter().enumerate() {
+            if i == ci {
+                for t in 0..k {
+                    cones.push(if t % 2 == 0 { SecondOrderConeT(1) } else { PSDTriangleConeT(1) });
+                }
+            } else {
+                cones.push(c.clone());
+            }
+        }
+        let mut p2 = pr.clone();
+        p2.cones = cones;
+        v.push(mk("nn-as-singletons", p2, st0.clone()));
+    }
     // merge adjacent nonnegative cones
     if let Some(i) = (0..pr.cones.len().saturating_sub(1)).find(|&i| {
         matches!(pr.cones[i], NonnegativeConeT(_)) && matches!(pr.cones[i + 1], NonnegativeConeT(_))
